@@ -156,7 +156,7 @@ namespace cnl {
     template<>
     [[nodiscard]] constexpr auto countr_zero(unsigned int x)
     {
-        return int{__builtin_ctz(x)};
+        return x ? __builtin_ctz(x) : digits_v<unsigned int>;
     }
 
     template<>
